@@ -144,7 +144,7 @@ def run_random_case(ctx, kind_, idx):
                 xin, _k = gen.as_container(rng, x)
                 yin, _k2 = gen.as_container(rng, y)
                 info.update({"left": l, "right": r, "ratios": [lr, rr]})
-                gx, gy = truncate(xin, yin, l, r, lr, rr)
+                gx, gy = truncate(xin, yin, l, r) if not (lr or rr) and rng.integers(0, 2) else truncate(xin, yin, l, r, lr, rr)
                 ctx.judged()
                 ctx.monitor("c11:truncate")
                 i, j, _a, _b = D.truncate_bounds([float(v) for v in x], l, r, lr, rr)
@@ -175,7 +175,7 @@ def run_random_case(ctx, kind_, idx):
                     ctx.discard("ratio_bound_within_rounding_of_a_sample")
                     return
                 info.update({"left": l, "right": r, "ratios": [lr, rr]})
-                wv.truncate_by_value(l, r, lr, rr)
+                wv.truncate_by_value(l, r) if not (lr or rr) and rng.integers(0, 2) else wv.truncate_by_value(l, r, lr, rr)
                 ctx.judged()
                 ctx.monitor("c11:weaver_truncate")
                 for name, (gx, gy), (sx, sy) in (("working", wv.get(), (wx, wy)), ("reference", wv.get_reference(), (rx, ry))):
@@ -220,15 +220,18 @@ def run_random_case(ctx, kind_, idx):
                 stop = None if rng.integers(0, 4) == 0 else int(rng.integers(0, n + 1))
                 st = int(rng.integers(1, 5))
                 info.update({"start": start, "stop": stop, "step": st})
+                if rng.integers(0, 6) == 0:
+                    start, stop, st = 0, None, 1                 # documented defaults
+                    info["defaults"] = True
                 if mode == "slice_index":
-                    gx, gy = wv.slice_by_index(start, stop, st)
+                    gx, gy = wv.slice_by_index() if info.get("defaults") else wv.slice_by_index(start, stop, st)
                     ctx.judged()
                     ctx.monitor("c11:slice_by_index")
                     if not (eq(gx, x[start:stop:st]) and eq(gy, y[start:stop:st])):
                         ctx.violation("slice_by_index", cid, {"got_x": gx, "want_x": x[start:stop:st], "case": info})
                         return
                 else:
-                    wv.truncate_by_index(start, stop)
+                    wv.truncate_by_index() if info.get("defaults") else wv.truncate_by_index(start, stop)
                     ctx.judged()
                     ctx.monitor("c11:truncate_by_index")
                     for name, (gx, gy) in (("working", wv.get()), ("reference", wv.get_reference())):
